@@ -769,9 +769,17 @@ impl Check for C02 {
                     }
                     if sv {
                         if got == Some(false) {
-                            // is the validator right to reject?  if the reference says the doc is a member, this is C01's subject
+                            // is the validator right to reject?  if the reference says the doc is a member the validator is
+                            // wrong (C01's subject as well) - the statement is violated all the same: a document valid
+                            // against the schema is not accepted
                             if mo == Tri::Yes {
                                 out.label("validator_wrong_not_schema");
+                                out.mismatch_any(
+                                    ctx,
+                                    &sigs_for(&format!("c02_schema_valid_member_validator_rejects{}", feature_suffix_used(&t.env, d, false)), "c02_schema_valid_member_validator_rejects", &t.env, d, t.used.contains_key("exclude")),
+                                    format!("{} [{}]: document {} is valid against the emitted schema and a member of the type, but validate() rejects it", name, mode, doc),
+                                    detail(json!({"doc": doc, "source": src, "reference_open": "Yes"})),
+                                );
                                 continue;
                             }
                             if mo == Tri::Unspec {
